@@ -1,0 +1,112 @@
+//! Verification-only scheduling points (`cfg(folo_verif)`), used by the model-checking harnesses
+//! in `/verif`. With the cfg off this module does not exist and no call site is compiled.
+//!
+//! A harness installs plain function pointers of its controlled scheduler. `point` marks a place
+//! where the calling thread may be descheduled (always immediately *before* a lock acquisition or
+//! an atomic operation, never inside a critical section). `block_until` replaces a blocking wait
+//! by a modelled one. `before_spawn` / `thread_start` / `thread_exit` bracket worker threads.
+//! Without installed hooks every function is a no-op and the blocking calls stay real.
+
+#![allow(missing_docs, missing_debug_implementations, unreachable_pub, clippy::exhaustive_structs, reason = "verification-only")]
+
+use std::sync::OnceLock;
+
+#[derive(Clone, Copy)]
+pub struct Hooks {
+    pub point: fn(&'static str),
+    pub block_until: fn(&'static str, &mut dyn FnMut() -> bool),
+    pub before_spawn: fn(&str) -> usize,
+    pub thread_start: fn(usize),
+    pub thread_exit: fn(),
+    /// Has the controlled thread with this id finished (as far as the scheduler is concerned)?
+    pub thread_finished: fn(usize) -> bool,
+}
+
+static HOOKS: OnceLock<Hooks> = OnceLock::new();
+
+/// Installs the hooks; the first installation wins for the lifetime of the process.
+pub fn install(hooks: Hooks) {
+    let _ = HOOKS.set(hooks);
+}
+
+#[inline]
+pub(crate) fn active() -> bool {
+    HOOKS.get().is_some()
+}
+
+#[inline]
+pub(crate) fn point(label: &'static str) {
+    if let Some(h) = HOOKS.get() {
+        (h.point)(label);
+    }
+}
+
+#[inline]
+pub(crate) fn before_spawn(name: &str) -> usize {
+    HOOKS.get().map_or(usize::MAX, |h| (h.before_spawn)(name))
+}
+
+#[inline]
+pub(crate) fn thread_start(id: usize) {
+    if let Some(h) = HOOKS.get() {
+        (h.thread_start)(id);
+    }
+}
+
+#[inline]
+pub(crate) fn thread_exit() {
+    if let Some(h) = HOOKS.get() {
+        (h.thread_exit)();
+    }
+}
+
+/// Ids of spawned worker threads, so that a join of a `std::thread::JoinHandle` can be modelled.
+static WORKER_IDS: std::sync::Mutex<Vec<(std::thread::ThreadId, usize)>> = std::sync::Mutex::new(Vec::new());
+
+pub(crate) fn register_worker(thread: std::thread::ThreadId, id: usize) {
+    if id != usize::MAX {
+        WORKER_IDS.lock().unwrap_or_else(std::sync::PoisonError::into_inner).push((thread, id));
+    }
+}
+
+/// Modelled wait for the exit of a worker thread; the real `join()` that follows returns promptly.
+pub(crate) fn wait_for_exit<T>(handle: &std::thread::JoinHandle<T>) {
+    let Some(h) = HOOKS.get() else { return };
+    let tid = handle.thread().id();
+    let id = WORKER_IDS
+        .lock()
+        .unwrap_or_else(std::sync::PoisonError::into_inner)
+        .iter()
+        .find(|(t, _)| *t == tid)
+        .map(|(_, i)| *i);
+    if let Some(id) = id {
+        (h.block_until)("worker.join", &mut || (h.thread_finished)(id));
+    }
+}
+
+/// Modelled acquisition of a mutex that is held across a blocking call by some code path: the
+/// calling thread never blocks on the real lock while it holds the scheduler's baton.
+pub(crate) fn lock<'a, T>(label: &'static str, mutex: &'a std::sync::Mutex<T>) -> std::sync::MutexGuard<'a, T> {
+    let Some(h) = HOOKS.get() else {
+        return mutex.lock().expect(crate::NEVER_POISONED);
+    };
+    let mut guard = None;
+    (h.block_until)(label, &mut || match mutex.try_lock() {
+        Ok(g) => {
+            guard = Some(g);
+            true
+        }
+        Err(std::sync::TryLockError::WouldBlock) => false,
+        Err(std::sync::TryLockError::Poisoned(_)) => panic!("{}", crate::NEVER_POISONED),
+    });
+    guard.expect("block_until returns only after the condition held")
+}
+
+/// Modelled wait on an `event-listener` listener: the listener stays registered and is polled
+/// with a no-op waker, which preserves the notification semantics exactly.
+pub(crate) fn wait_listener<L: Future<Output = ()> + Unpin>(listener: &mut L) {
+    let Some(h) = HOOKS.get() else { unreachable!("wait_listener requires installed hooks") };
+    let waker = std::task::Waker::noop();
+    let mut cx = std::task::Context::from_waker(waker);
+    (h.block_until)("listener.wait", &mut || std::pin::Pin::new(&mut *listener).poll(&mut cx).is_ready());
+}
